@@ -842,6 +842,21 @@ func main() {
 			env: withNow(mk(sfV, nil))}, rootByName, rootCE, &out)
 		translateEffects(effSpec{file: "roundtripper.go", fn: "handleStaleWhileRevalidate", coq: "src_handle_stale_while_revalidate", params: "(q : request) (stored : stored_entry) (url_key : bytes) (f : freshness) (cc_req : directives) (now : Z) (qualified : option (list bytes))", ret: "prog outcome",
 			env: withNow(mk(sfV, nil))}, rootByName, rootCE, &out)
+		ageEnv := func() *eenv {
+			en := mk(map[string]term{"h": {"h", kHdr}, "date": {"date", kT}, "requestTime": {"request_time", kT}, "responseTime": {"response_time", kT}}, nil)()
+			en.now = "now"
+			return en
+		}
+		translateEffects(effSpec{file: "freshness.go", fn: "calculateCurrentAge", coq: "src_current_age", params: "(h : headers) (date request_time response_time now : Z)", ret: "Z * Z", pure: true, env: ageEnv}, intByName, intCE, &out)
+		translateEffects(effSpec{file: "freshness.go", fn: "heuristicFreshness", coq: "src_heuristic_freshness", params: "(h : headers) (date : Z)", ret: "Z", pure: true,
+			env: mk(map[string]term{"h": {"h", kHdr}, "date": {"date", kT}}, nil)}, intByName, intCE, &out)
+		// CalculateFreshness: the clock is read (inside calculateCurrentAge and for the Age timestamp) at one instant, `now`
+		translateEffects(effSpec{file: "freshness.go", fn: "CalculateFreshness", coq: "src_calculate_freshness", params: "(e : stored_entry) (req_cc res_cc : directives) (now : Z)", ret: "freshness", pure: true,
+			env: func() *eenv {
+				en := mk(map[string]term{"entry": {"e", kEntry}, "reqCC": {"req_cc", kCCq}, "resCC": {"res_cc", kCCr}}, nil)()
+				en.now = "now"
+				return en
+			}}, intByName, intCE, &out)
 		translateEffects(effSpec{file: "responsestorerer.go", fn: "StoreResponse", coq: "src_store_response", params: "(q : request) (r : response) (url_key : bytes) (refs : list (option ref)) (req_at recv_at : Z) (ref_index : Z)", ret: "prog response",
 			respLeaf: true, env: mk(map[string]term{"req": {"q", kReq}, "resp": {"r", kResp}, "urlKey": {"url_key", kS}, "refs": {"refs", kRefs}, "reqTime": {"req_at", kZ}, "respTime": {"recv_at", kZ}, "refIndex": {"ref_index", kZ}}, nil)}, intByName, intCE, &out)
 		// the handler is always built with a storer (newTransport); a unit test of the repository builds one without
